@@ -58,7 +58,12 @@ def diagnose (b : Block) (annot : Annot) : String :=
       match instrAt b p.1 with
       | none => s!"pc={p.1} not-an-instruction-start"
       | some i =>
-        if !(operandsOk b i) then s!"pc={p.1} op={i.op} operand-out-of-range-or-undeclared"
+        if !(operandsOk b i) then
+          (match Gen.Opcodes.table.find? (fun r => r.1 == i.op) with
+           | none => s!"pc={p.1} op={i.op} opcode-not-in-table"
+           | some r =>
+             if r.2.length == i.names.length && r.2.all (fun f => i.names.contains f.1) then s!"pc={p.1} op={i.op} operand-out-of-range regs={i.regs} of {b.regCount} idx={i.idx} addrs={i.addrs}"
+             else s!"pc={p.1} op={i.op} operands-differ-from-table dump={i.names}")
         else if !(locatorsOk b i p.2) then s!"pc={p.1} op={i.op} binding-locator-beyond-environment-chain env={p.2.env}"
         else match successors b i p.2 with
           | none => s!"pc={p.1} op={i.op} depth-underflow-or-handler-deeper-than-chain at {showSigma p.2}"
